@@ -431,6 +431,27 @@ def pred_c06(prog, case, outs, tables):
                 bad.append((j, "Metadata (count, max_depth, max_length, max_bits) = %r, exact values are %r" % (o[0], want)))
             if o[1] != SP.skeleton(prog.t):
                 bad.append((j, "a user Walk sees a structure different from the declared children"))
+    # sufficient for sizing key buffers: a buffer sized from what the implementation's own Metadata reports holds the
+    # key of every node (Packed: max_bits <= 63; Path: max_length + max_depth * separator bytes; Indices: max_depth)
+    rep = None
+    for op, o in zip(case["ops"], outs):
+        if op["op"] == "meta" and o != PANIC:
+            rep = o[0]
+    if rep is not None:
+        for j, (op, o) in enumerate(zip(case["ops"], outs)):
+            if o == PANIC or op["op"] != "transcode" or op.get("_steps") is None or "fail_at" in op:
+                continue
+            tg = op["tg"]
+            fits = None
+            if tg["t"] == "packed":
+                fits = rep[3] <= 63
+            elif tg["t"] == "path" and "cap" in tg:
+                fits = tg["cap"] >= rep[2] + rep[1] * len(chr(tg["sep"]).encode())
+            elif tg["t"] == "idx" and "cap" in tg:
+                fits = tg["cap"] >= rep[1]
+            if fits and res_kind(o[0])[0] != "ok":
+                bad.append((j, "Metadata reports (count, max_depth, max_length, max_bits) = %r, so a %s target%s holds every key; transcoding node %s into it failed: %r"
+                            % (rep, tg["t"], (" of capacity %d" % tg["cap"]) if "cap" in tg else "", [s[0] for s in op["_steps"]], o[0])))
     return bad
 
 
@@ -501,6 +522,12 @@ def pred_c12(prog, case, outs, tables):
             if [e for e in log if e[0] == 2]:
                 bad.append((j, "validator ran although an accessor failed"))
             continue
+        # deny short-circuits per operation: a deny declared for another operation must not stop this one
+        if r[0] == "err" and r[1] == 4 and r[3] != 0:
+            for f, d in attrs:
+                if d == r[2] and r[3] in [m for on, m in f.get("deny", {}).items() if on != oname] and oname not in f.get("deny", {}) \
+                        and not ((f.get("getmut") if writes else f.get("get")) and r[3] == orc.get(str(f.get("getmut") if writes else f.get("get")), {}).get("fail")):
+                    bad.append((j, "%s stopped at depth %d by the deny message m%d declared for another operation (%r)" % (op["op"], d, r[3], f.get("deny"))))
         vals = [e for e in log if e[0] == 2]
         if op["op"] != "de" and vals:
             bad.append((j, "validator ran on a %s" % op["op"]))
